@@ -381,6 +381,28 @@ def cli_routes(ctx, work, sets):
                 continue
             if a != b:
                 ctx.violation(f"{sname}: CLI flags {flags} and the equivalent config file generate different files: {_diff(a, b)}", {"set": sname, "flags": flags})
+    # a DIRECTORY as the source: the files are processed in sorted order whatever order the file system lists them in (eight
+    # namespaces that each define Item: with one package the duplicates are numbered in processing order)
+    dfiles = {f"s{i}.xsd": _ns_schema(f"urn:n{i}", f'<xs:element name="k{i}" type="xs:int"/>') for i in range(8)}
+    spath = os.path.join(work, "apispec.json")
+    json.dump({"files": dfiles, "main": sorted(dfiles), "options": {"structure_style": "single-package"}, "repeat": 1, "pkg": "clipkg"}, open(spath, "w"))
+    api = worker(["gen", spath], 0)["runs"][0]
+    for label, order in (("written first to last", sorted(dfiles)), ("written last to first", sorted(dfiles, reverse=True)),
+                         ("written in a mixed order", sorted(dfiles, key=lambda n: (int(n[1]) * 5) % 8))):
+        d = tempfile.mkdtemp(prefix="xv-c12dir-", dir=work)
+        os.mkdir(os.path.join(d, "src"))
+        for name in order:
+            Path(d, "src", name).write_text(dfiles[name])
+        p = subprocess.run([sys.executable, "-m", "xsdata", "generate", "--package", "clipkg", "--structure-style", "single-package", "src"],
+                           cwd=d, env=env, capture_output=True, text=True, timeout=600)
+        ctx.case(("cli-directory", label))
+        covered += 1
+        got = {"error": p.stderr[-400:]} if p.returncode != 0 else _hash_tree(d)
+        if "error" in got or "error" in api:
+            if ("error" in got) != ("error" in api):
+                ctx.violation(f"directory source ({label}): the CLI and the API disagree on success: {got if 'error' in got else api}", {"order": order})
+        elif got != api:
+            ctx.violation(f"directory source ({label}): the CLI generates other files than the API on the same (sorted) sources: {_diff(api, got)}", {"order": order})
     # a project file in the DOCUMENTED layout (a committed copy of what `xsdata init-config` of the pinned release
     # writes, every option set to a non-default value) against the same options passed through the API
     fixture = Path(__file__).resolve().parent.parent / "fixtures" / "config_all_options.xml"
